@@ -4,7 +4,7 @@
     sequences of a net at the level of marking tuples) in proof/C20_Bfs.v. *)
 From Coq Require Import ZArith NArith List Lia Permutation.
 Import ListNotations.
-From SK Require Import model.C20_Model proof.C20_Spec proof.C20_Siphon proof.C20_Petri proof.C20_Bfs proof.C20_Build proof.C20_Main proof.C20_Hist proof.C20_Analyzer proof.C20_Undirected proof.C20_Order.
+From SK Require Import model.C20_Model proof.C20_Spec proof.C20_Siphon proof.C20_Petri proof.C20_Bfs proof.C20_Build proof.C20_Main proof.C20_Hist proof.C20_Analyzer proof.C20_Undirected proof.C20_Order proof.C20_Complete.
 Local Open Scope nat_scope.
 
 (** The index predicate [_is_siphon_indices] is the Petri-net definition: for every network over the
@@ -105,17 +105,36 @@ Theorem C20_realizable_sound :
 Proof. exact main_realizable_sound. Qed.
 Print Assumptions C20_realizable_sound.
 
-(** Completeness within the bounds.  FULL STATEMENT (not proved in this form):
-      (exists sq, realizes edges flow sq) ->
-      #{(remaining flow, species marking) reachable from (flow, 0)} <= max_states ->
-      sum flow <= max_depth ->  exists sq', verdict = Found sq'.
-    PROVED: the same with the three premises stated on the extended Petri net that the code builds
-    (places = species + one supply and one target place per edge): a firing sequence from M0 to MT
-    exists, the markings reachable from M0 fit into a list of at most max_states elements, and no
-    firing sequence from M0 is longer than max_depth.  MISSING for the full form: the converse
-    simulation (an ordering of the pathway is a firing sequence of the extended net — the forward
-    direction is [path_ordering], used for soundness), the bijection between reachable extended
-    markings and (remaining flow, species marking) pairs, and the bound |sequence| <= sum flow. *)
+(** Completeness within the bounds — "no pathway that has such an ordering within the search bounds is reported
+    unrealizable" — stated on the pathway itself (round 5; proof/C20_Complete.v).  For every vertex list, edge list, flow and
+    pair of bounds: if some ordering fires each edge exactly flow times, covered at every step, back to zero ([realizes]);
+    the states (how often each edge has fired, species marking) reachable from (nothing fired, zero) by covered firings that
+    never fire an edge more often than its flow are covered by a list [R] of at most max_states elements; and the sum of the
+    positive flows ([total_flow]) is at most max_depth — then [is_realizable] returns a sequence (which, by
+    [C20_realizable_sound], is such an ordering).  Ingredients: the converse simulation (an ordering of the pathway IS a
+    firing sequence of the extended net from M0 to MT), one supply token consumed per firing (so no firing sequence is
+    longer than the sum of the positive flows), and a reachable extended marking is determined by (fired counts, species
+    marking) — on top of the search-level completeness below. *)
+Theorem C20_realizable_complete :
+  forall (vertices : list N) (edges : list edge) (flow : list Z) (max_states max_depth : N)
+         (R : list (list Z * smarking)),
+  (exists sq, realizes edges flow sq) ->
+  (forall sq m, ordering edges zero sq m ->
+                (forall j, In j sq -> N.to_nat j < length edges) ->
+                (forall j, In j sq -> (count j sq <= nth (N.to_nat j) flow 0)%Z) ->
+     exists cm, In cm R /\ (forall k, k < length edges -> nth k (fst cm) 0%Z = count (N.of_nat k) sq) /\
+                (forall x, snd cm x = m x)) ->
+  (N.of_nat (length R) <= max_states)%N ->
+  (total_flow edges flow <= Z.of_N max_depth)%Z ->
+  exists sq', bo_verdict (is_realizable (build_petri_net_from_flow vertices edges flow) max_states max_depth)
+              = Found sq'.
+Proof. exact main_realizable_complete. Qed.
+Print Assumptions C20_realizable_complete.
+
+(** The search-level form of the same (premises stated on the extended Petri net that the code builds: places = species
+    + one supply and one target place per edge): a firing sequence from M0 to MT exists, the markings reachable from M0 fit
+    into a list of at most max_states elements, and no firing sequence from M0 is longer than max_depth.  Kept under its
+    round-2 name; [C20_realizable_complete] above discharges the three premises from pathway-level ones. *)
 Theorem C20_realizable_complete_partial :
   forall (vertices : list N) (edges : list edge) (flow : list Z) (max_states max_depth : N) (R : list tuple),
   let b := build_petri_net_from_flow vertices edges flow in
